@@ -103,6 +103,16 @@ where
                         let mut acc = Acc::new();
                         acc.sample_stride = stride;
                         WORKER_IDX.with(|c| c.set(w));
+                        // a roomy alternate signal stack: after a stack overflow the abort handler
+                        // has to run (and write its report) on it
+                        unsafe {
+                            let size = 1usize << 20;
+                            let mem = libc::mmap(std::ptr::null_mut(), size, libc::PROT_READ | libc::PROT_WRITE, libc::MAP_PRIVATE | libc::MAP_ANONYMOUS, -1, 0);
+                            if mem != libc::MAP_FAILED {
+                                let ss = libc::stack_t { ss_sp: mem, ss_flags: 0, ss_size: size };
+                                libc::sigaltstack(&ss, std::ptr::null_mut());
+                            }
+                        }
                         loop {
                             let start = next.fetch_add(chunk, Ordering::Relaxed);
                             if start >= hi {
